@@ -55,11 +55,58 @@ def parse_msg_tok(tok: str):
     return (mtype, tags)
 
 
+_SUB_US = [0, 499, 500, 999, 1, 750, 250, 998]
+CLOCK_BASE = (2024, 1, 2)
+
+
+def codec_clock(now_ms: int):
+    """the instant the UTC clock read by `Codec.current_datetime()` shows while `time.time()` is now_ms/1000:
+    (millisecond of the day, microseconds below the millisecond).  A deterministic function of now_ms, so
+    events need no extra field; NOT the identity: every 16th 125 ms slot is snapped to the last millisecond of
+    the current minute / hour / day (second 59, .999 plus 499 / 500 / 999 / 0 us - the roll-over boundaries),
+    which also makes this clock stand still and step backwards relative to time.time().  `time.time()` itself
+    stays a multiple of 125 ms (exact float arithmetic in the watchdog)."""
+    tod = now_ms % 86_400_000
+    slot = now_ms // 125
+    k = slot % 16
+    sub = _SUB_US[(slot // 16 + k) % len(_SUB_US)]
+    if k == 7:
+        tod = tod - tod % 60_000 + 59_999
+        sub = [499, 500, 999, 0][(slot // 16) % 4]
+    elif k == 11:
+        tod = tod - tod % 3_600_000 + 3_599_999
+        sub = [999, 500][(slot // 16) % 2]
+    elif k == 13:
+        tod = 86_399_999
+        sub = [999, 499, 500][(slot // 16) % 3]
+    return tod, sub
+
+
 def stamp(now_ms: int) -> str:
-    """deterministic `Codec.current_datetime()` of the patched clock"""
-    s, ms = divmod(now_ms, 1000)
-    s %= 86400
-    return "20240102-%02d:%02d:%02d.%03d" % (s // 3600, s // 60 % 60, s % 60, ms)
+    """the SendingTime text the UNCHANGED `Codec.current_datetime()` prints for the clock `codec_clock(now_ms)`
+    (date fixed to CLOCK_BASE, microseconds truncated to milliseconds)"""
+    tod, _ = codec_clock(now_ms)
+    s, ms = divmod(tod, 1000)
+    return "%04d%02d%02d-%02d:%02d:%02d.%03d" % (CLOCK_BASE + (s // 3600, s // 60 % 60, s % 60, ms))
+
+
+def fake_datetime_class(get_now_ms):
+    """a `datetime` subclass whose utcnow() / now() show `codec_clock(get_now_ms())`: patched into
+    `asyncfix.codec` as the name `datetime`, so that the REAL `Codec.current_datetime()` runs"""
+    import datetime as _dt
+
+    class FakeDateTime(_dt.datetime):
+        @classmethod
+        def utcnow(cls):
+            tod, sub = codec_clock(get_now_ms())
+            return _dt.datetime(*CLOCK_BASE) + _dt.timedelta(milliseconds=tod, microseconds=sub)
+
+        @classmethod
+        def now(cls, tz=None):
+            r = cls.utcnow()
+            return r if tz is None else r.replace(tzinfo=_dt.timezone.utc).astimezone(tz)
+
+    return FakeDateTime
 
 
 @dataclass
@@ -376,9 +423,15 @@ class Impl:
         self.now_ms = 0
         impl = self
 
-        # patched clock / sleep, local to asyncfix.connection and Codec
-        self._saved = (cm.time, cm.asyncio, Codec.__dict__["current_datetime"])
+        # patched clock / sleep, local to asyncfix.connection and asyncfix.codec.  The clock
+        # `Codec.current_datetime()` READS is patched (the module's `datetime` name), the method itself runs.
+        import asyncfix.codec as codec_mod
+
+        self.codec_mod = codec_mod
+        self._saved = (cm.time, cm.asyncio, getattr(codec_mod, "datetime", None))
         cm.time = types.SimpleNamespace(time=lambda: impl.now_ms / 1000)
+        self.fake_datetime = fake_datetime_class(lambda: impl.now_ms)
+        codec_mod.datetime = self.fake_datetime
 
         async def _sleep(_d):
             raise _Done()
@@ -390,7 +443,6 @@ class Impl:
         proxy = _AsyncioProxy()
         proxy.sleep = _sleep
         cm.asyncio = proxy
-        Codec.current_datetime = staticmethod(lambda: stamp(impl.now_ms))
         self.Codec = Codec
         self.codec = Codec(FIXProtocol44())
 
@@ -480,8 +532,9 @@ class Impl:
             raise make_exc(f["exc"])
 
     def close(self):
-        self.cm.time, self.cm.asyncio, cd = self._saved
-        self.Codec.current_datetime = cd
+        self.cm.time, self.cm.asyncio, dt = self._saved
+        if dt is not None:
+            self.codec_mod.datetime = dt
 
     # ---- state in / out --------------------------------------------------------------------
     def load(self, a: AbsConn):
